@@ -9,6 +9,10 @@
 (*       docstring is parsed by extract_fields while the module is built)  *)
 (*   B : inherit = TRUE : a method that inherits A's docstring (source A)   *)
 (*       inherit = FALSE: an object with its own docstring                 *)
+(*   V : (kindA = "cls" only) an attribute of A documented by a field of   *)
+(*       A's docstring (@ivar v: ...): extract_fields hands it the field's *)
+(*       body as parsed_docstring; it has no docstring text of its own, the*)
+(*       pipeline takes its PARENT A as "source" (ensure_parsed_docstring) *)
 (*   a bystander X exists in every real scenario; no action touches it     *)
 (*   (frame condition, checked on the recorded projections).               *)
 (*                                                                         *)
@@ -36,10 +40,12 @@ CONSTANTS Source,       \* "enum" | "file"
           BMenu,        \* "tiny" | "small" | "full": fault sets tried for B's own docstring
           Ns,           \* numbers of errors a parser that returns with errors may report (subset of 1..2)
           PoisonedCache, \* TRUE while the tree has deviation epytext-half-built-document-cached (a to_node that fails keeps failing otherwise)
+          SummaryMarksSource, \* TRUE while the tree has deviation summary-fallback-marks-source (format_summary passes the SOURCE as ctx)
           TocGuarded    \* FALSE while the tree has deviation format-toc-unguarded (TRUE: a to_node failure inside get_toc yields no toc)
 
-Objs == {"A", "B"}
-Ops  == {"docstring", "summary", "toc"}
+Objs == {"A", "B", "V"}
+Ops3 == {"docstring", "summary", "toc"}
+Ops2 == {"docstring", "summary"}
 
 \* ------------------------------------------------------------------ the fault lattice
 \* parse   ok          parser returns, no errors
@@ -69,28 +75,50 @@ Canonical(f) == /\ (f.parse \in {"fatal", "crash"} => f.tostan = "ok" /\ f.summa
 SmallMenu == {NoFault, [NoFault EXCEPT !.parse = "fatal"], [NoFault EXCEPT !.tostan = "raises"], [NoFault EXCEPT !.node = "once"]}
 TinyMenu  == {NoFault, [NoFault EXCEPT !.tostan = "raises"]}
 
-\* all sequences in which each of the six calls happens once
-Calls == Objs \X Ops
+\* faults of the field body that documents V: only its rendering can fail
+VMenu == {NoFault, [NoFault EXCEPT !.tostan = "raises"], [NoFault EXCEPT !.summary = "stanraises"], [NoFault EXCEPT !.summary = "broken"]}
+
+\* ---- call orders.  Every object gets each of its calls once (A, B: body / summary / toc; V: body / summary).  An order =
+\* a permutation of the calls of each object + a merge pattern saying whose turn it is.  The order of body / summary / toc
+\* ON THE SAME OBJECT is a dimension of its own: all 6 permutations of A's calls are always enumerated (and replayed).
 RECURSIVE Perms(_)
 Perms(S) == IF S = {} THEN {<<>>} ELSE UNION {{<<x>> \o p : p \in Perms(S \ {x})} : x \in S}
-Pos(seq, x) == CHOOSE i \in 1..Len(seq) : seq[i] = x
-BFixed(seq) == Pos(seq, <<"B", "docstring">>) < Pos(seq, <<"B", "summary">>) /\ Pos(seq, <<"B", "summary">>) < Pos(seq, <<"B", "toc">>)
-Orders == IF OrderMode = "all" THEN Perms(Calls) ELSE {s \in Perms(Calls) : BFixed(s)}
+Count(seq, x) == Cardinality({k \in 1..Len(seq) : seq[k] = x})
+PatAB == {p \in [1..6 -> {"A", "B"}] : Count(p, "A") = 3}                 \* the 20 merges of A's and B's calls
+PatAV == {p \in [1..5 -> {"A", "V"}] : Count(p, "A") = 3}                 \* the 10 merges of A's and V's calls
+BBB == <<"B", "B", "B">>
+PatVquick == {<<"A","A","A","B","B","B","V","V">>, <<"V","V","A","A","A","B","B","B">>, <<"V","A","A","A","V","B","B","B">>,
+              <<"A","V","A","V","A","B","B","B">>, <<"B","B","B","V","A","V","A","A">>, <<"A","B","V","A","B","V","A","B">>,
+              <<"A","A","V","A","V","B","B","B">>, <<"V","A","V","A","A","B","B","B">>}
+PatV == IF OrderMode = "all" THEN PatVquick \cup {p \o BBB : p \in PatAV} \cup {BBB \o p : p \in PatAV} ELSE PatVquick
+DST == <<"docstring", "summary", "toc">>
+RECURSIVE Build(_, _, _, _)
+Build(pat, pa, pb, pv) ==
+    IF pat = <<>> THEN <<>>
+    ELSE CASE Head(pat) = "A" -> <<<<"A", Head(pa)>>>> \o Build(Tail(pat), Tail(pa), pb, pv)
+           [] Head(pat) = "B" -> <<<<"B", Head(pb)>>>> \o Build(Tail(pat), pa, Tail(pb), pv)
+           [] Head(pat) = "V" -> <<<<"V", Head(pv)>>>> \o Build(Tail(pat), pa, pb, Tail(pv))
+Orders(kind) ==
+    IF kind = "cls"
+      THEN {Build(p, pa, DST, pv) : p \in PatV, pa \in Perms(Ops3), pv \in Perms(Ops2)}
+      ELSE {Build(p, pa, pb, <<>>) : p \in PatAB, pa \in Perms(Ops3), pb \in (IF OrderMode = "all" THEN Perms(Ops3) ELSE {DST})}
 
 Traces == IF Source = "file" THEN JsonDeserialize(IOEnv.TRACE_FILE) ELSE <<>>
 ASSUME TLCSet(1, {})
 
-VARIABLES tid, F, inherit, kindA, order,    \* configuration (fixed in Init)
+VARIABLES tid, F, inherit, kindA, vdoc, order,    \* configuration (fixed in Init); vdoc: extract_fields gave V a field body
           i,           \* next call / event
           pd,          \* obj.parsed_docstring : "none" | "parsed" (the parser's result) | "plain" (plain text fallback)
           ps,          \* obj.parsed_summary   : "none" | "ok" | "brokensum" (get_summary gave up) | "brokenstan" (set by format_summary_fallback)
-          perr,        \* System.parse_errors['docstring'] restricted to A, B
+          perr,        \* System.parse_errors['docstring'] restricted to A, B, V
           nrep,        \* number of messages reported against each object
           pz,          \* obj.parsed_docstring holds a half-built cached document (a to_node call on it has failed)
           res          \* results so far: sequence of [o, op, r]
-vars == <<tid, F, inherit, kindA, order, i, pd, ps, perr, nrep, pz, res>>
+vars == <<tid, F, inherit, kindA, vdoc, order, i, pd, ps, perr, nrep, pz, res>>
 
-Src(o) == IF o = "B" /\ inherit THEN "A" ELSE o
+\* whose faults the text rendered for o has  /  the "source": whom the pipeline reports against and passes to the fallbacks
+Text(o) == IF o = "B" /\ inherit THEN "A" ELSE o
+Src(o)  == IF (o = "B" /\ inherit) \/ o = "V" THEN "A" ELSE o
 
 \* ------------------------------------------------------------------ transcription (pure operators on a state record)
 St == [pd |-> pd, ps |-> ps, perr |-> perr, nrep |-> nrep, pz |-> pz]
@@ -100,47 +128,52 @@ ReportErrors(s, src, n) == IF src \in s.perr THEN s
                            ELSE [s EXCEPT !.perr = @ \cup {src}, !.nrep[src] = @ + n]
 \* parse_docstring(obj, doc, source): sets nothing itself, returns (kind of result, state after reporting)
 ParseResult(f) == IF f.parse \in {"ok", "warn"} THEN "parsed" ELSE "plain"
-ParseDocstring(s, o) == LET f == F[Src(o)]
+ParseDocstring(s, o) == LET f == F[Text(o)]
                             s1 == IF f.parse = "ok" THEN s ELSE ReportErrors(s, Src(o), f.n)
                         IN [s1 EXCEPT !.pd[o] = ParseResult(f)]
 \* ensure_parsed_docstring(obj): parse once, cache on obj
-EnsureParsed(s, o) == IF s.pd[o] = "none" THEN ParseDocstring(s, o) ELSE s
+\* (V has no docstring text: get_docstring finds nothing, what extract_fields stored - or nothing - stays)
+EnsureParsed(s, o) == IF s.pd[o] = "none" /\ o # "V" THEN ParseDocstring(s, o) ELSE s
 
 \* format_docstring(obj): the body (safe_to_stan with the plain text fallback), then the fields (Field.format)
 DocstringBody(s1, o) ==
-    LET f == F[Src(o)] IN
+    LET f == F[Text(o)] IN
     IF s1.pd[o] = "parsed" /\ f.node = "once"
       THEN IF ~s1.pz[o] \/ ~PoisonedCache
              THEN [r |-> "plainfull", s |-> [ReportErrors(s1, Src(o), 1) EXCEPT !.pz[o] = PoisonedCache]]   \* to_stan -> to_node raises: fallback + report
              ELSE [r |-> "lost", s |-> s1]              \* to_stan renders the empty cached document: no text, no report
     ELSE IF s1.pd[o] = "parsed" /\ f.tostan = "raises"
       THEN [r |-> "plainfull", s |-> ReportErrors(s1, Src(o), 1)]      \* safe_to_stan -> format_docstring_fallback(ctx = source) + reportErrors(ctx)
-      ELSE [r |-> (IF s1.pd[o] = "parsed" THEN "rendered" ELSE "plainfull"), s |-> s1]
+      ELSE [r |-> (CASE s1.pd[o] = "parsed" -> "rendered" [] s1.pd[o] = "plain" -> "plainfull" [] OTHER -> "undoc"), s |-> s1]
 DocstringStep(s, o) ==
     LET s1 == EnsureParsed(s, o)
         b  == DocstringBody(s1, o) IN
-    IF s1.pd[o] = "parsed" /\ F[Src(o)].field = "raises"
+    IF s1.pd[o] = "parsed" /\ F[Text(o)].field = "raises"
       THEN [r |-> b.r, s |-> ReportErrors(b.s, Src(o), 1)]             \* Field.format: safe_to_stan(fallback BROKEN) + reportErrors(source)
       ELSE b
 
 \* format_summary(obj)
 SummaryStep(s, o) ==
     LET s1 == EnsureParsed(s, o)
-        f  == F[Src(o)]
+        f  == F[Text(o)]
+        \* format_summary_fallback(errs, doc, ctx) sets ctx.parsed_summary; format_summary hands it the SOURCE as ctx
+        mark == IF SummaryMarksSource THEN Src(o) ELSE o
         \* _get_parsed_summary: cached, else parsed_docstring.get_summary()
         once  == s1.pd[o] = "parsed" /\ f.node = "once"
         fresh == IF f.summary = "broken" \/ (once /\ (~s1.pz[o] \/ ~PoisonedCache)) THEN "brokensum" ELSE "ok"
         s2 == IF s1.ps[o] = "none" THEN [s1 EXCEPT !.ps[o] = fresh, !.pz[o] = (@ \/ (once /\ PoisonedCache))] ELSE s1
         cur == s2.ps[o] IN
-    IF cur = "ok" /\ f.summary = "stanraises"
-      \* safe_to_stan(report=False) -> format_summary_fallback: ctx.parsed_summary = BROKEN where ctx is the SOURCE
-      THEN [r |-> "broken", s |-> [s2 EXCEPT !.ps[Src(o)] = "brokenstan"]]
+    \* undocumented: ParsedStanOnly(format_undocumented(obj)) is cached like any other summary
+    IF s1.pd[o] = "none" THEN [r |-> "undoc", s |-> [s1 EXCEPT !.ps[o] = IF @ = "none" THEN "ok" ELSE @]]
+    ELSE IF cur = "ok" /\ f.summary = "stanraises"
+      \* safe_to_stan(report=False) -> format_summary_fallback: ctx.parsed_summary = BROKEN
+      THEN [r |-> "broken", s |-> [s2 EXCEPT !.ps[mark] = "brokenstan"]]
       ELSE [r |-> (CASE cur = "ok" -> "summary" [] cur = "brokensum" -> "brokensum" [] cur = "brokenstan" -> "broken"), s |-> s2]
 
 \* format_toc(obj)   (sidebartocdepth > 0)
 TocStep(s, o) ==
     LET s1 == EnsureParsed(s, o)
-        f  == F[Src(o)] IN
+        f  == F[Text(o)] IN
     IF s1.pd[o] # "parsed" THEN [r |-> "none", s |-> s1]                \* plain text: no titles
     ELSE IF f.node = "once"
       THEN IF ~s1.pz[o] \/ ~PoisonedCache
@@ -167,14 +200,20 @@ InitEnum == /\ Source = "enum" /\ tid = 0
             /\ (kindA = "cls" => ~inherit)
             /\ F \in [Objs -> {f \in Fault : Canonical(f) /\ f.n \in Ns}]
             /\ (inherit => F["B"] = NoFault)
-            /\ (~inherit => F["B"] \in (CASE BMenu = "tiny" -> TinyMenu [] BMenu = "small" -> SmallMenu
-                                           [] OTHER -> {f \in Fault : Canonical(f) /\ f.n = 1}))
-            /\ order \in Orders
+            /\ (~inherit /\ kindA = "func" => F["B"] \in (CASE BMenu = "tiny" -> TinyMenu [] BMenu = "small" -> SmallMenu
+                                                            [] OTHER -> {f \in Fault : Canonical(f) /\ f.n = 1}))
+            /\ (kindA = "cls" => F["B"] = NoFault)                       \* B is only a neighbour there
+            \* (quick bound: what the class shares with the function scenario is not enumerated twice)
+            /\ (kindA = "cls" /\ BMenu = "tiny" => F["A"].summary # "broken" /\ F["A"].toc \in {"none", "ok"})
+            /\ vdoc = (kindA = "cls" /\ F["A"].parse \in {"ok", "warn"}) \* the parser's result has the field, plain text has none
+            /\ F["V"] \in (IF vdoc THEN VMenu ELSE {NoFault})
+            /\ order \in Orders(kindA)
 InitFile == /\ Source = "file" /\ tid \in 1..Len(Traces)
-            /\ inherit = Traces[tid].inherit /\ kindA = Traces[tid].kindA
+            /\ inherit = Traces[tid].inherit /\ kindA = Traces[tid].kindA /\ vdoc = Traces[tid].vdoc
             /\ F = [o \in Objs |-> Traces[tid].F[o]]
             /\ order = <<>>
-Start == IF kindA = "cls" THEN ParseDocstring(Blank, "A") ELSE Blank       \* the builder has run extract_fields on the class
+\* the builder has run extract_fields on the class: its docstring is parsed, the @ivar field body given to V
+Start == IF kindA = "cls" THEN [ParseDocstring(Blank, "A") EXCEPT !.pd["V"] = IF vdoc THEN "parsed" ELSE "none"] ELSE Blank
 Init == /\ (InitEnum \/ InitFile)
         /\ i = 1 /\ res = <<>>
         /\ pd = Start.pd /\ ps = Start.ps /\ perr = Start.perr /\ nrep = Start.nrep /\ pz = Start.pz
@@ -195,13 +234,13 @@ TraceStep == /\ Source = "file" /\ i <= Len(Traces[tid].ev)
                   /\ out.s.nrep = [o \in Objs |-> Ev.st.nrep[o]]
                   /\ out.s.pz = [o \in Objs |-> Ev.st.pz[o]]
                   /\ Apply(Ev.o, Ev.op, out)
-Next == (Call \/ TraceStep) /\ UNCHANGED <<tid, F, inherit, kindA, order>>
+Next == (Call \/ TraceStep) /\ UNCHANGED <<tid, F, inherit, kindA, vdoc, order>>
 Spec == Init /\ [][Next]_vars
 
 \* ------------------------------------------------------------------ the property (from the statement)
 Results == {res[k] : k \in 1..Len(res)}
 Parsed(o) == pd[o] # "none"
-GaveUp(o) == Parsed(o) /\ F[Src(o)].parse \in {"fatal", "crash"}            \* the parser gave up on o's docstring
+GaveUp(o) == Parsed(o) /\ F[Text(o)].parse \in {"fatal", "crash"}            \* the parser gave up on o's docstring
 \* every entry point ends in a result
 AlwaysResult == \A x \in Results : x.r # "escaped"
 \* ... within the time limit (a call the harness had to interrupt is logged with r = "timeout"; the loop behind the only
@@ -210,36 +249,45 @@ Terminates == \A x \in Results : x.r # "timeout"
 \* when the parser gives up, or the renderer fails, the body shown is the complete text as plain text
 \* ("lost": the body was rendered from a document whose construction had failed, nothing was reported)
 FallbackComplete == \A x \in Results : x.op = "docstring" =>
-                       /\ ((GaveUp(x.o) \/ F[Src(x.o)].tostan = "raises") => x.r = "plainfull")
+                       /\ ((GaveUp(x.o) \/ (F[Text(x.o)].tostan = "raises" /\ pd[x.o] # "none")) => x.r = "plainfull")
                        /\ x.r \notin {"lost", "partial", "broken"}
 \* ... and the problem is reported against the object that carries the docstring
-ReportedWhenFailed == \A o \in Objs : (Parsed(o) /\ F[Src(o)].parse # "ok") => (Src(o) \in perr /\ nrep[Src(o)] >= 1)
-ReportedWhenRenderFails == \A x \in Results : (x.op = "docstring" /\ (F[Src(x.o)].tostan = "raises" \/ F[Src(x.o)].field = "raises") /\ pd[x.o] = "parsed")
+ReportedWhenFailed == \A o \in Objs : (Parsed(o) /\ o # "V" /\ F[Text(o)].parse # "ok") => (Src(o) \in perr /\ nrep[Src(o)] >= 1)
+ReportedWhenRenderFails == \A x \in Results : (x.op = "docstring" /\ (F[Text(x.o)].tostan = "raises" \/ F[Text(x.o)].field = "raises") /\ pd[x.o] = "parsed")
                                                    => (Src(x.o) \in perr /\ nrep[Src(x.o)] >= 1)
 \* one report per object: whatever is called, in whatever order, however often the text is parsed
 OneReport == \A o \in Objs : nrep[o] \in {0, 1, F[o].n} /\ (nrep[o] > 0 <=> o \in perr)
 \* a summary is never a failure to produce one
-SummaryAlways == \A x \in Results : x.op = "summary" => x.r \in {"summary", "brokensum", "broken"}
-\* frame: working on one object changes nothing of the other, except the documented sharing with the source of an
-\* inherited docstring (errors are reported against the source; the summary fallback marks the source)
-FrameOK == \A o \in Objs : \A p \in Objs \ {o} :
-              (i' = i + 1 /\ res'[Len(res')].o = o /\ p # Src(o)) =>
-                 /\ pd'[p] = pd[p] /\ ps'[p] = ps[p] /\ nrep'[p] = nrep[p] /\ ((p \in perr') <=> (p \in perr)) /\ pz'[p] = pz[p]
+SummaryAlways == \A x \in Results : x.op = "summary" => x.r \in {"summary", "brokensum", "broken", "undoc"}
+\* frame: working on one object changes nothing of another one, with two exceptions that follow from where the TEXT lives:
+\* errors are reported against the source (the object whose docstring holds the text), and - the documented sharing - the
+\* summary fallback of an INHERITED docstring marks the source, whose summary is the same text.  What another object has
+\* parsed is never touched, and the summary of a class is not the business of its attributes.
+Stepped(o) == i' = i + 1 /\ res'[Len(res')].o = o
+FrameClause(o, p, waive) ==
+    /\ pd'[p] = pd[p] /\ pz'[p] = pz[p]
+    /\ (p # Src(o) => ps'[p] = ps[p] /\ nrep'[p] = nrep[p] /\ ((p \in perr') <=> (p \in perr)))
+    /\ ((p = Src(o) /\ ~(o = "B" /\ inherit) /\ ~waive) => ps'[p] = ps[p])
+FrameOK == \A o \in Objs : \A p \in Objs \ {o} : Stepped(o) => FrameClause(o, p, FALSE)
 Frame == [][FrameOK]_vars
-\* an inherited docstring never changes what the source itself has parsed
-SourceParseUntouched == [][\A o \in Objs : (i' = i + 1 /\ res'[Len(res')].o = o /\ Src(o) # o) => pd'[Src(o)] = pd[Src(o)]]_vars
+\* known finding (findings.d/C08.json  summary-fallback-marks-source): the failing summary of a field-documented attribute
+\* replaces the summary of its parent class by "Broken description"
+FrameOrKF == [][\A o \in Objs : \A p \in Objs \ {o} : Stepped(o) =>
+                   FrameClause(o, p, SummaryMarksSource /\ o = "V" /\ p = "A" /\ ps'[p] = "brokenstan")]_vars
+\* an inherited / field docstring never changes what the source itself has parsed (part of Frame, stated for the reader)
+SourceParseUntouched == [][\A o \in Objs : (Stepped(o) /\ Src(o) # o) => pd'[Src(o)] = pd[Src(o)]]_vars
 
 \* known finding (findings.d/C08.json  format-toc-unguarded): to_node failing inside get_toc escapes format_toc
-KF_TocEscapes == \A x \in Results : x.r = "escaped" => (x.op = "toc" /\ (F[Src(x.o)].toc = "noderaises" \/ F[Src(x.o)].node = "once"))
+KF_TocEscapes == \A x \in Results : x.r = "escaped" => (x.op = "toc" /\ (F[Text(x.o)].toc = "noderaises" \/ F[Text(x.o)].node = "once"))
 AlwaysResultOrKF == AlwaysResult \/ KF_TocEscapes
 \* known finding (findings.d/C08.json  epytext-half-built-document-cached): after a swallowed to_node failure the body is lost
-KF_PoisonedCache == \A x \in Results : (x.op = "docstring" /\ x.r = "lost") => F[Src(x.o)].node = "once"
+KF_PoisonedCache == \A x \in Results : (x.op = "docstring" /\ x.r = "lost") => F[Text(x.o)].node = "once"
 FallbackCompleteOrKF == FallbackComplete \/ (KF_PoisonedCache /\ \A x \in Results : x.op = "docstring" =>
-                                                 ((GaveUp(x.o) \/ F[Src(x.o)].tostan = "raises") => x.r = "plainfull") /\ x.r \notin {"partial", "broken"})
+                                                 ((GaveUp(x.o) \/ (F[Text(x.o)].tostan = "raises" /\ pd[x.o] # "none")) => x.r = "plainfull") /\ x.r \notin {"partial", "broken"})
 
 \* ------------------------------------------------------------------ emission / acceptance
 DoneEnum == Source = "enum" /\ i = Len(order) + 1
-EmitTerminal == DoneEnum => PrintT(ToJson([F |-> F, inherit |-> inherit, kindA |-> kindA, res |-> res,
+EmitTerminal == DoneEnum => PrintT(ToJson([F |-> F, inherit |-> inherit, kindA |-> kindA, vdoc |-> vdoc, res |-> res,
                                            final |-> [pd |-> pd, ps |-> ps, nrep |-> nrep, pz |-> pz, perr |-> [o \in Objs |-> o \in perr]]]))
 Accept == (Source = "file" /\ i = Len(Traces[tid].ev) + 1) => TLCSet(1, TLCGet(1) \cup {tid})
 Post == IF Source = "file" THEN PrintT(ToJson([accepted |-> TLCGet(1), total |-> Len(Traces)])) ELSE TRUE
